@@ -98,15 +98,15 @@ theorem toU64T2_fmtNat (n : Nat) (h : n ≤ U64_MAX) : toU64T2 (fmtNat n) 0 = .o
   rw [toU64T2_allDigits (fmtNat n) 0 h2 (by simp [U64_MAX])]
   simp [h1, h]
 
-/-- `to_i64` reads the decimal rendering of every i64 except i64::MIN back (the model of
-scalar.rs refuses the magnitude 2^63 before applying the sign). -/
-theorem toI64_fmtInt (n : Int) (h : n.natAbs ≤ I64_MAX) : Scalar.toI64 (fmtInt n) = .ok n := by
-  have hU : n.natAbs ≤ U64_MAX := by simp only [I64_MAX, U64_MAX] at *; omega
+/-- `to_i64` reads the decimal rendering of EVERY i64 back, `i64::MIN` included (the sign is applied to the
+magnitude with `checked_sub_unsigned`, /repo 8327848; `Model/Scalar.lean` `toI64Go`). -/
+theorem toI64_fmtInt (n : Int) (hlo : -(2 ^ 63 : Int) ≤ n) (hhi : n ≤ 2 ^ 63 - 1) : Scalar.toI64 (fmtInt n) = .ok n := by
+  have hU : n.natAbs ≤ U64_MAX := by simp only [U64_MAX]; omega
   by_cases hneg : n < 0
   · have hv := toU64T2_fmtNat n.natAbs hU
     have h45 : isDigit 45 = false := by decide
     simp only [fmtInt, hneg, if_true, toI64, toI64T, h45, toI64Go, hv]
-    have : ¬ n.natAbs > I64_MIN_ABS := by simp only [I64_MIN_ABS, I64_MAX] at *; omega
+    have : ¬ n.natAbs > I64_MIN_ABS := by simp only [I64_MIN_ABS]; omega
     simp [this, requireEmpty]; omega
   · obtain ⟨h1, h2⟩ := fmtNat_val n.natAbs
     cases hs : fmtNat n.natAbs with
@@ -121,7 +121,14 @@ theorem toI64_fmtInt (n : Int) (h : n.natAbs ≤ I64_MAX) : Scalar.toI64 (fmtInt
       have hb : allDigits body = true := h2.2
       simp only [fmtInt, hneg, if_false, hs, toI64, toI64T, h2.1, if_true, toI64Go,
         toU64T2_allDigits body (digitVal c) hb hd, hv, hU]
-      have : ¬ n.natAbs > I64_MAX := by omega
+      have : ¬ n.natAbs > I64_MAX := by simp only [I64_MAX]; omega
       simp [this, requireEmpty]; omega
+
+/-- the range of `i64` -/
+def inI64 (n : Int) : Bool := decide (-(2 ^ 63 : Int) ≤ n) && decide (n ≤ 2 ^ 63 - 1)
+
+theorem toI64_fmtInt' (n : Int) (h : inI64 n = true) : Scalar.toI64 (fmtInt n) = .ok n := by
+  simp only [inI64, Bool.and_eq_true, decide_eq_true_eq] at h
+  exact toI64_fmtInt n h.1 h.2
 
 end Jomini.BinDe
